@@ -442,3 +442,40 @@ Section SafetyTop.
     destruct Hs as [Hx Hi1]. destruct (IH s1 Hcr Hi1) as [I1 I2]. destruct (api_run s1 calls) as [s2 xs]. cbn [fst snd] in *. split; [constructor; assumption|exact I2].
   Qed.
 End SafetyTop.
+
+(* ---------- C02 at the Cli level: what the invariant says about text handed out *)
+Lemma CliInv_text_valid s : CliInv s -> valid_tok (text (ed s)).
+Proof. intros ((i & HR) & _). eapply Rep_valid; eauto. Qed.
+Lemma CliInv_history_valid s : CliInv s -> exists sp, hbuf (hist s) = enc (ents sp) /\ Forall valid_tok (ents sp).
+Proof. intros (_ & _ & (sp & (_ & Hb & _) & Hv) & _). eauto. Qed.
+
+(* classified arguments of valid tokens carry valid strings / scalar values *)
+Definition arg_valid (a : arg) : Prop :=
+  match a with
+  | DoubleDash => True
+  | LongOption n => valid_tok n
+  | ShortOption c => scalar c
+  | Value v => valid_tok v
+  end.
+Lemma valid_skip_ascii b r : b < 0x80 -> valid_tok (b :: r) -> valid_tok r.
+Proof.
+  intros Hb (cs & Hw & E). destruct cs as [|c cs]; [discriminate|]. inversion Hw as [|? ? Hc Hcs]; subst.
+  destruct c as [|x [|y c']]; cbn [wf_char] in Hc; try contradiction.
+  - cbn in E. injection E as <- ->. exists cs. auto.
+  - cbn in E. injection E as <- _. exfalso. destruct c' as [|z [|w [|v t]]]; cbn in Hc; unfold cont in *; try contradiction; lia.
+Qed.
+Lemma classify_tok_valid vo t : valid_tok t -> Forall arg_valid (fst (classify_tok vo t)).
+Proof.
+  intros Hv. unfold classify_tok. destruct vo; [repeat constructor; exact Hv|].
+  destruct t as [|b0 [|b1 r]]; try (repeat constructor; exact Hv).
+  destruct (b0 =? 45) eqn:E0; [|repeat constructor; exact Hv]. apply N.eqb_eq in E0. subst.
+  destruct (b1 =? 45) eqn:E1.
+  - apply N.eqb_eq in E1. subst. destruct r; repeat constructor. cbn. apply (valid_skip_ascii 45); [lia|]. apply (valid_skip_ascii 45); [lia|exact Hv].
+  - destruct (valid_dash_tail _ Hv) as (cs & Hcs & Ecs). rewrite Ecs, chars_of_concat by exact Hcs. cbn [fst].
+    apply Forall_forall. intros a Ha. apply in_map_iff in Ha as (c & <- & Hc). cbn. apply decode_scalar. rewrite Forall_forall in Hcs. apply Hcs, Hc.
+Qed.
+Lemma classify_all_valid : forall ts vo, Forall valid_tok ts -> Forall arg_valid (classify_all vo ts).
+Proof.
+  induction ts as [|t ts IH]; intros vo H; [constructor|]. inversion H; subst. cbn [classify_all].
+  pose proof (classify_tok_valid vo t H2) as H1. destruct (classify_tok vo t) as [items vo']. cbn [fst] in H1. apply Forall_app_intro; [exact H1|apply IH; assumption].
+Qed.
